@@ -421,4 +421,276 @@ theorem runAllI_no_trap (mf : MergeFn) {cfg : SCfg} {s0 : Sorter} (hnew : Sorter
       exact Sorter.finishChunks_no_trap r1.core.1.inv.live t hf
     | ok s2 => exact finalMerge_no_trap mf s2 t
 
+/-! ### E. The order of the heap list is unobservable -/
+
+/-- Heap entries have pairwise distinct `(key, idx)` pairs. -/
+def KeyIdxNe (h : List MSrc) : Prop := h.Pairwise (fun a b => a.key = b.key → a.idx ≠ b.idx)
+
+theorem keyIdxNe_iff (h : List MSrc) :
+    KeyIdxNe h ↔ h.Pairwise (fun a b => (a.key, a.idx) ≠ (b.key, b.idx)) := by
+  unfold KeyIdxNe
+  constructor <;> intro hp <;> refine hp.imp ?_ <;> intro a b hab
+  · intro e; simp only [Prod.mk.injEq] at e; exact hab e.1 e.2
+  · intro e1 e2; exact hab (by rw [e1, e2])
+
+theorem KeyIdxNe.perm {h h' : List MSrc} (p : KeyIdxNe h) (hp : h.Perm h') : KeyIdxNe h' :=
+  List.Pairwise.perm p hp (fun hxy => fun e e' => hxy e.symm e'.symm)
+
+theorem KeyIdxNe.sublist {h h' : List MSrc} (p : KeyIdxNe h) (hs : h'.Sublist h) : KeyIdxNe h' :=
+  List.Pairwise.sublist hs p
+
+/-- Distinct source indices (the invariant of runs) imply distinct `(key, idx)` pairs. -/
+theorem keyIdxNe_of_idxNe {h : List MSrc} (p : IdxNe h) : KeyIdxNe h :=
+  List.Pairwise.imp (fun {a b} hab (_ : a.key = b.key) => hab) p
+
+theorem before_total' {a b : MSrc} (hne : a.key = b.key → a.idx ≠ b.idx)
+    (h : ¬ a.before b = true) : b.before a = true := by
+  rw [before_iff] at *
+  by_cases hk : a.key = b.key
+  · right; refine ⟨hk.symm, ?_⟩
+    have : ¬ a.idx < b.idx := fun hl => h (Or.inr ⟨hk, hl⟩)
+    have := hne hk
+    omega
+  · left; exact blt_tri (fun hl => h (Or.inl hl)) hk
+
+theorem before_asymm {a b : MSrc} (h1 : a.before b = true) : ¬ b.before a = true := by
+  rw [before_iff] at *
+  rcases h1 with h1 | ⟨e1, l1⟩
+  · rintro (h2 | ⟨e2, _⟩)
+    · exact blt_asymm h1 h2
+    · rw [e2] at h1; exact blt_irrefl _ h1
+  · rintro (h2 | ⟨_, l2⟩)
+    · rw [e1] at h2; exact blt_irrefl _ h2
+    · omega
+
+/-- `heapMin` returns the least element for `before` (under distinct `(key, idx)` pairs). -/
+theorem heapMin_spec' {h : List MSrc} {m : MSrc} (hp : KeyIdxNe h) (hm : heapMin h = some m) :
+    m ∈ h ∧ ∀ x ∈ h, x = m ∨ m.before x = true := by
+  induction h generalizing m with
+  | nil => simp [heapMin] at hm
+  | cons s r ih =>
+    have hp' := List.pairwise_cons.mp hp
+    simp only [heapMin] at hm
+    split at hm
+    · rename_i hn
+      have : r = [] := heapMin_eq_none.mp hn
+      subst this
+      cases hm
+      simp
+    · rename_i m0 hm0
+      obtain ⟨hmem, hall⟩ := ih hp'.2 hm0
+      split at hm
+      · rename_i hb
+        cases hm
+        refine ⟨List.mem_cons_self, ?_⟩
+        intro x hx
+        rcases List.mem_cons.mp hx with e | hx
+        · left; exact e
+        · right
+          rcases hall x hx with e | hb'
+          · rw [e]; exact hb
+          · exact before_trans hb hb'
+      · rename_i hb
+        cases hm
+        refine ⟨List.mem_cons_of_mem _ hmem, ?_⟩
+        intro x hx
+        rcases List.mem_cons.mp hx with e | hx
+        · right; rw [e]
+          exact before_total' (hp'.1 _ hmem) hb
+        · exact hall x hx
+
+/-- The selected minimum does not depend on the order of the list. -/
+theorem heapMin_perm {h h' : List MSrc} (hne : KeyIdxNe h) (hp : h.Perm h') :
+    heapMin h = heapMin h' := by
+  cases hm : heapMin h with
+  | none =>
+    have : h = [] := heapMin_eq_none.mp hm
+    subst this
+    rw [← hp.nil_eq]; rfl
+  | some m =>
+    cases hm' : heapMin h' with
+    | none =>
+      have : h' = [] := heapMin_eq_none.mp hm'
+      subst this
+      rw [hp.eq_nil] at hm
+      simp [heapMin] at hm
+    | some m' =>
+      obtain ⟨h1, h2⟩ := heapMin_spec' hne hm
+      obtain ⟨h1', h2'⟩ := heapMin_spec' (hne.perm hp) hm'
+      rcases h2 m' (hp.symm.subset h1') with e | hb
+      · rw [e]
+      · rcases h2' m (hp.subset h1) with e | hb'
+        · rw [e]
+        · exact absurd hb' (before_asymm hb)
+
+/-- `BinaryHeap::pop` on two orderings of the same heap: the same element, and the remainders
+    are permutations of each other. -/
+theorem heapPop_perm {h h' : List MSrc} (hne : KeyIdxNe h) (hp : h.Perm h') :
+    (heapPop h = none ∧ heapPop h' = none) ∨
+    ∃ m r r', heapPop h = some (m, r) ∧ heapPop h' = some (m, r') ∧ r.Perm r' ∧ KeyIdxNe r ∧
+      r.length + 1 = h.length := by
+  unfold heapPop
+  rw [← heapMin_perm hne hp]
+  cases hm : heapMin h with
+  | none => left; exact ⟨rfl, rfl⟩
+  | some m =>
+    right
+    refine ⟨m, h.erase m, h'.erase m, rfl, rfl, hp.erase m, hne.sublist List.erase_sublist, ?_⟩
+    have hmem := (heapMin_spec' hne hm).1
+    have := (List.perm_cons_erase hmem).length_eq
+    simp only [List.length_cons] at this
+    omega
+
+/-- The `while let Some(entry) = heap.peek()` loop on two orderings of the same heap: the same
+    entries are collected, in the same order, and the remainders are permutations. -/
+theorem popSame_perm (k : Bytes) : ∀ (fuel : Nat) (h h' acc : List MSrc), KeyIdxNe h → h.Perm h' →
+    (popSame k fuel h acc).1 = (popSame k fuel h' acc).1 ∧
+    (popSame k fuel h acc).2.Perm (popSame k fuel h' acc).2 := by
+  intro fuel
+  induction fuel with
+  | zero => intro h h' acc _ hp; exact ⟨rfl, hp⟩
+  | succ fuel ih =>
+    intro h h' acc hne hp
+    simp only [popSame]
+    rcases heapPop_perm hne hp with ⟨e1, e2⟩ | ⟨m, r, r', e1, e2, hr, hner, _⟩
+    · rw [e1, e2]; exact ⟨rfl, hp⟩
+    · rw [e1, e2]
+      simp only
+      by_cases hk : m.key = k
+      · simp only [hk, if_true]
+        exact ih r r' (m :: acc) hner hr
+      · simp only [hk, if_false]
+        exact ⟨trivial, hp⟩
+
+theorem foldl_advance_congr (F : List MSrc) {h h' : List MSrc} (hp : h.Perm h') :
+    (F.foldl advance h).Perm (F.foldl advance h') :=
+  (foldl_advance_perm F h).trans (((hp.append_left _)).trans (foldl_advance_perm F h').symm)
+
+/-- **The heap's internal shape is unobservable.**  `MergerIter::next` on two mergers whose heaps
+    hold the same entries in any two orders (and with the same call log): same result, same
+    calls, and the new heaps again hold the same entries. -/
+theorem next_perm (mf : MergeFn) (m m' : Merger) (hne : KeyIdxNe m.heap)
+    (hp : m.heap.Perm m'.heap) (hc : m.calls = m'.calls) :
+    (Merger.next mf m).2 = (Merger.next mf m').2 ∧
+    (Merger.next mf m).1.heap.Perm (Merger.next mf m').1.heap ∧
+    (Merger.next mf m).1.calls = (Merger.next mf m').1.calls := by
+  rcases heapPop_perm hne hp with ⟨e1, e2⟩ | ⟨first, r, r', e1, e2, hr, hner, _⟩
+  · simp only [Merger.next, e1, e2]
+    exact ⟨trivial, hp, hc⟩
+  · have hlen : r'.length = r.length := hr.length_eq.symm
+    obtain ⟨hs1, hs2⟩ := popSame_perm first.key (r.length + 1) r r' [] hner hr
+    cases hps : popSame first.key (r.length + 1) r [] with
+    | mk S h2 =>
+      cases hps' : popSame first.key (r.length + 1) r' [] with
+      | mk S' h2' =>
+        rw [hps, hps'] at hs1 hs2
+        simp only at hs1 hs2
+        subst hs1
+        simp only [Merger.next, e1, e2, hlen, hps, hps', hc]
+        cases mf first.key (first.val :: List.map MSrc.val S) with
+        | none => exact ⟨rfl, hs2, rfl⟩
+        | some v => exact ⟨rfl, foldl_advance_congr _ hs2, rfl⟩
+
+/-! #### Distinct source indices are an invariant of every run -/
+
+theorem idxNe_iff_nodup (h : List MSrc) : IdxNe h ↔ (h.map (·.idx)).Nodup := by
+  unfold IdxNe
+  rw [List.nodup_iff_pairwise_ne, List.pairwise_map]
+
+theorem adv_idx {s s' : MSrc} (h : adv s = some s') : s'.idx = s.idx := by
+  obtain ⟨i, rest⟩ := s
+  match rest, h with
+  | _ :: _ :: _, h => simp only [adv, Option.some.injEq] at h; rw [← h]
+
+theorem filterMap_adv_idx_sublist (F : List MSrc) :
+    ((F.filterMap adv).map (·.idx)).Sublist (F.map (·.idx)) := by
+  induction F with
+  | nil => simp
+  | cons s F ih =>
+    simp only [List.filterMap_cons, List.map_cons]
+    cases h : adv s with
+    | none => exact ih.cons _
+    | some s' =>
+      simp only [List.map_cons, adv_idx h]
+      exact ih.cons_cons _
+
+theorem start_idxNe (sources : List (List Entry)) : IdxNe (Merger.start sources).heap :=
+  (tag_idxLt sources 0).1.idxNe
+
+/-- One `next` keeps the source indices of the heap entries pairwise distinct (whatever the
+    sources: no sortedness is needed). -/
+theorem next_idxNe (mf : MergeFn) (m : Merger) (hne : IdxNe m.heap) :
+    IdxNe (Merger.next mf m).1.heap := by
+  cases hpop : heapPop m.heap with
+  | none => simp only [Merger.next, hpop]; exact hne
+  | some p =>
+    obtain ⟨first, h1⟩ := p
+    obtain ⟨S, h2, hps, hF, -, hh2, -, -⟩ := heap_round hne hpop
+    have hfun : (fun x : MSrc => decide (x.key ≠ first.key)) =
+        (fun x => !decide (x.key = first.key)) := by funext x; simp
+    have hall : ((first :: S) ++ h2).Perm m.heap := by
+      rw [hfun] at hh2
+      exact (hF.append hh2).trans (List.filter_append_perm _ _)
+    have hnd : (((first :: S) ++ h2).map (·.idx)).Nodup :=
+      (idxNe_iff_nodup _).mp (hne.perm hall.symm)
+    simp only [Merger.next, hpop, hps]
+    cases mf first.key (first.val :: List.map MSrc.val S) with
+    | none =>
+      simp only
+      rw [idxNe_iff_nodup]
+      refine List.Nodup.sublist ?_ hnd
+      rw [List.map_append]
+      exact List.sublist_append_right _ _
+    | some v =>
+      simp only
+      refine IdxNe.perm ?_ (foldl_advance_perm (first :: S) h2).symm
+      rw [idxNe_iff_nodup]
+      refine List.Nodup.sublist ?_ hnd
+      rw [List.map_append, List.map_append]
+      exact (filterMap_adv_idx_sublist _).append (List.Sublist.refl _)
+
+/-- The merger after `n` calls of `next`. -/
+def nextN (mf : MergeFn) : Nat → Merger → Merger
+  | 0, m => m
+  | n + 1, m => nextN mf n (Merger.next mf m).1
+
+/-- Distinct `(key, idx)` pairs hold in every state of a run started by `Merger.start`. -/
+theorem run_keyIdxNe (mf : MergeFn) (sources : List (List Entry)) (n : Nat) :
+    IdxNe (nextN mf n (Merger.start sources)).heap ∧
+    KeyIdxNe (nextN mf n (Merger.start sources)).heap := by
+  have : ∀ (n : Nat) (m : Merger), IdxNe m.heap → IdxNe (nextN mf n m).heap := by
+    intro n
+    induction n with
+    | zero => intro m h; exact h
+    | succ n ih => intro m h; exact ih _ (next_idxNe mf m h)
+  have h := this n _ (start_idxNe sources)
+  exact ⟨h, keyIdxNe_of_idxNe h⟩
+
+/-- Draining two mergers whose heaps hold the same entries in different orders gives the same
+    output and the same calls. -/
+theorem collect_perm (mf : MergeFn) : ∀ (fuel : Nat) (m m' : Merger) (acc : List Entry),
+    IdxNe m.heap → m.heap.Perm m'.heap → m.calls = m'.calls →
+    (Merger.collect mf fuel m acc).1 = (Merger.collect mf fuel m' acc).1 ∧
+    (Merger.collect mf fuel m acc).2.calls = (Merger.collect mf fuel m' acc).2.calls := by
+  intro fuel
+  induction fuel with
+  | zero => intro m m' acc _ _ hc; exact ⟨rfl, hc⟩
+  | succ fuel ih =>
+    intro m m' acc hne hp hc
+    obtain ⟨h1, h2, h3⟩ := next_perm mf m m' (keyIdxNe_of_idxNe hne) hp hc
+    have h4 := next_idxNe mf m hne
+    simp only [Merger.collect]
+    cases hn : Merger.next mf m with
+    | mk m1 r1 =>
+      cases hn' : Merger.next mf m' with
+      | mk m1' r1' =>
+        rw [hn, hn'] at h1 h2 h3
+        rw [hn] at h4
+        simp only at h1 h2 h3 h4
+        subst h1
+        match r1 with
+        | .ok none => exact ⟨rfl, h3⟩
+        | .ok (some e) => exact ih m1 m1' (e :: acc) h4 h2 h3
+        | .mergeErr => exact ⟨rfl, h3⟩
+
 end Grenad.Wave3
